@@ -55,6 +55,42 @@ def checkOptMap (kvs okv : List (String × String)) : String := Id.run do
   let _ := order
   return s!"ok nontrivial={if q.length > 0 && isNontrivial d then 1 else 0}"
 
+/-- `kind=mapwide`: a manager with more than 64 variables; the function mentions five of them.
+Specification: exhaustive maximum over the query variables, summing over the other MENTIONED
+variables (every unmentioned variable carries normalised weights and contributes the factor 1). -/
+def checkOptMapWide (kvs okv : List (String × String)) : String := Id.run do
+  let some vars := (lookup kvs "vars").bind parseNatList | return "FAIL PARSE vars"
+  let some q := (lookup kvs "q").bind parseNatList | return "FAIL PARSE q"
+  let some d := (lookup okv "d").bind parseBdd | return "FAIL PARSE d"
+  let wsS := ((lookup kvs "w").getD "").splitOn ","
+  let ws : List (Nat × Nat × Nat) := wsS.filterMap fun e => match (e.splitOn ":").mapM String.toNat? with
+    | some [v, l, h] => some (v, l, h) | _ => none
+  let w : Weights Rat := fun v => match ws.find? (·.1 == v) with
+    | some (_, l, h) => (mkRat l 8, mkRat h 8) | none => (mkRat 1 2, mkRat 1 2)
+  -- the diagram denotes the cubes
+  let cubesS := ((lookup kvs "cubes").getD "").splitOn ";"
+  let cubes : List (List (Nat × Bool)) := cubesS.map fun c =>
+    if c.isEmpty then [] else (c.splitOn ".").filterMap fun l =>
+      match l.toList with
+      | 'p' :: r => (String.ofList r).toNat?.map fun v => (v, true)
+      | 'n' :: r => (String.ofList r).toNat?.map fun v => (v, false)
+      | _ => none
+  let f : Assign → Bool := fun a => cubes.any fun c => c.all fun (v, p) => a v == p
+  let asgs := (List.range (2 ^ vars.length)).map fun i => fun (x : Nat) => assignOfNat i (vars.idxOf x)
+  if asgs.any (fun a => d.eval a != f a) then return "FAIL SPEC the compiled diagram does not denote the cubes"
+  let best := mapSpec d.eval q vars w
+  for key in ["mm", "bb"] do
+    let some (vS, mS) := (lookup okv key).bind splitValPm | return s!"FAIL PARSE {key}"
+    let some v := parseRat? vS | return s!"FAIL PARSE {key} value"
+    if v != best then return s!"FAIL SPEC {key} (manager with more than 64 variables) returned {showRat v}, the maximum over all assignments of the query variables is {showRat best}"
+    let pm := parsePM mS
+    for x in vars do
+      if (pm.getD x none).isSome != q.contains x then
+        return s!"FAIL SPEC {key} assignment does not assign exactly the query variables {q}"
+    let attained := mapValue d.eval q (nonQuery vars q) w (asgOfPm pm)
+    if attained != best then return s!"FAIL SPEC {key} assignment has value {showRat attained}, not the optimum {showRat best}"
+  return "ok nontrivial=1"
+
 def checkOptMeu (kvs okv : List (String × String)) : String := Id.run do
   let some n := (lookup kvs "n").bind parseNat? | return "FAIL PARSE n"
   let some order := (lookup kvs "order").bind parseNatList | return "FAIL PARSE order"
@@ -94,6 +130,7 @@ def checkOptLine (kvs : List (String × String)) (rhs : String) : String :=
   if rhs.startsWith "panic:" then s!"FAIL SPEC an optimisation query panicked: {rhs}" else
   let okv := splitKV rhs
   match lookup kvs "kind" with
+  | some "mapwide" => checkOptMapWide kvs okv
   | some "map" => checkOptMap kvs okv
   | some "meu" => checkOptMeu kvs okv
   | _ => "FAIL PARSE kind"
